@@ -14,12 +14,12 @@ import (
 )
 
 type zzL2Mon struct {
-	active   int
-	overlap  bool
-	recs     []zzRec
-	incs     int
-	crashes  int
-	produced int
+	active       int
+	overlap      bool
+	recs         []zzRec
+	incs         int
+	crashes      int
+	produced     int
 	crashStarted bool // the first incarnation panics in its Started handler (on the spawning goroutine)
 }
 
